@@ -80,6 +80,10 @@ let () =
       (* hypothesis of the step-level theorems (C01_copy_is_walk): listings in OS order *)
       (* hypothesis of the wire-level theorems of C04: the decoded tags are the codec model's *)
       if not (wire_decoded r) then raise (Failure "the tag decoded by ConditionalMatch.ETag differs from the codec model (wire_decoded)");
+      (match req with
+       | L (A "req" :: _ :: _ :: _ :: _ :: rawdest :: _) ->
+         if not (dest_decoded (str rawdest) r.h_dest) then raise (Failure "url.Parse of the Destination header differs from the model of net/url (dest_decoded)")
+       | _ -> ());
       if not (sorted_otree sb) then raise (Failure "the sandbox listing is not in the order the model assumes (sorted_tree)");
       (match response_of obs with
        | None -> bump "obs_panic"; Some "agree=0 spec=0 kf=- :: implementation panicked"
